@@ -570,6 +570,79 @@ fn scale_cases() -> Vec<Case> {
         .collect()
 }
 
+/// Direct string cases (outside the (bit, variant) value scheme): the shared tricky-string
+/// catalogue and DENSE sweeps of string length and spec count. Each case is a list of specs
+/// given by five strings (name, conditional1, body_model, clothing_sound = last short-form
+/// string, voice = last extended string; None where the option is absent).
+type StrSpec = [Option<String>; 5];
+
+fn string_cases(thorough: bool) -> Vec<(String, Vec<StrSpec>)> {
+    let mut v: Vec<(String, Vec<StrSpec>)> = Vec::new();
+    let tricky = vcore::sjis::tricky_strings();
+    for (i, s) in tricky.iter().enumerate() {
+        let other = &tricky[(i + 1) % tricky.len()];
+        v.push((format!("tricky string #{}", i), vec![[Some(s.clone()), Some(other.clone()), None, Some(s.clone()), None], [Some(other.clone()), None, Some(s.clone()), None, Some(s.clone())], [None, Some(s.clone()), None, None, None]]));
+    }
+    let (nl, nc) = if thorough { (1300usize, 2500usize) } else { (300, 600) };
+    for l in 0..=nl {
+        let a: String = "abcdefghijklmnopqrstuvwxyz".chars().cycle().take(l).collect();
+        let b: String = "漢字".chars().cycle().take(l / 2).collect::<String>() + if l % 2 == 1 { "z" } else { "" };
+        v.push((format!("strings of {} bytes", l), vec![[Some(a.clone()), Some(b.clone()), None, None, Some(a.clone())], [Some(b), None, Some(a), None, None]]));
+    }
+    for n in 0..=nc {
+        v.push((format!("{} specs", n), (0..n).map(|i| -> StrSpec { [if i % 3 == 0 { None } else { Some(format!("n{}", i % 11)) }, None, if i % 2 == 0 { Some("m".into()) } else { None }, None, if i % 5 == 0 { Some("v".into()) } else { None }] }).collect()));
+    }
+    v
+}
+
+fn judge_strings(specs: &[StrSpec], t: &mut Tally) -> Option<(String, String)> {
+    let mut b = AssetBinary::new();
+    b.flags = 7;
+    for s in specs {
+        let mut a = AssetSpec::new();
+        a.name = s[0].clone();
+        a.conditional1 = s[1].clone();
+        a.body_model = s[2].clone();
+        a.clothing_sound = s[3].clone();
+        a.voice = s[4].clone();
+        b.specs.push(a);
+    }
+    t.calls += 3;
+    let r = util::catch(|| -> Result<Option<(String, String)>, String> {
+        let bytes = b.serialize().map_err(|e| format!("serialize: {}", e))?;
+        let arch = mila::BinArchive::from_bytes(&bytes, mila::Endian::Little).map_err(|e| format!("from_bytes: {}", e))?;
+        let back = AssetBinary::from_archive(&arch).map_err(|e| format!("from_archive: {}", e))?;
+        // a trailing all-absent unnamed spec is indistinguishable from the terminator (C18 main family decides that case)
+        let mut want: Vec<&StrSpec> = specs.iter().collect();
+        while want.last().map(|s| s.iter().all(|x| x.is_none())).unwrap_or(false) {
+            want.pop();
+        }
+        let mut got: Vec<&AssetSpec> = back.specs.iter().collect();
+        while got.len() > want.len() && got.last().map(|g| g.name.is_none() && g.conditional1.is_none() && g.body_model.is_none() && g.clothing_sound.is_none() && g.voice.is_none()).unwrap_or(false) {
+            got.pop();
+        }
+        if back.flags != 7 || got.len() != want.len() {
+            return Ok(Some(("strings:count".into(), format!("{} specs (flags {}) came back for {} written", back.specs.len(), back.flags, specs.len()))));
+        }
+        for (i, (g, w)) in got.iter().zip(want.iter()).enumerate() {
+            let gs: StrSpec = [g.name.clone(), g.conditional1.clone(), g.body_model.clone(), g.clothing_sound.clone(), g.voice.clone()];
+            if gs != **w {
+                return Ok(Some(("strings:value".into(), format!("spec {}: strings {:?} came back as {:?}", i, w, gs))));
+            }
+        }
+        let again = back.serialize().map_err(|e| format!("re-serialize: {}", e))?;
+        if again != bytes && want.len() == specs.len() {
+            return Ok(Some(("strings:reserialize".into(), "re-serializing the re-read value gives different bytes".into())));
+        }
+        Ok(None)
+    });
+    match r {
+        Err(p) => Some((format!("panic@{}:strings", p.location), format!("panicked: {}", p.message))),
+        Ok(Err(e)) => Some(("strings:error".into(), e)),
+        Ok(Ok(x)) => x,
+    }
+}
+
 fn explore(ctx: &Ctx) -> Outcome {
     let thorough = ctx.tier == vcore::Tier::Thorough;
     let problems = self_check();
@@ -648,7 +721,21 @@ fn explore(ctx: &Ctx) -> Outcome {
         })
         .reduce(Tally::new, Tally::merge);
 
+    // family 5: tricky strings and dense sweeps
+    let sc = string_cases(thorough);
+    let t5 = sc
+        .par_iter()
+        .fold(Tally::new, |mut t, (tag, specs)| {
+            t.cases += 1;
+            t.nontrivial += 1;
+            if let Some((sig, summary)) = judge_strings(specs, &mut t) {
+                t.violate(sig, format!("[{}] {}", tag, summary.chars().take(400).collect::<String>()), json!({"string_case": tag, "thorough": thorough}));
+            }
+            t
+        })
+        .reduce(Tally::new, Tally::merge);
     let mut total = t1;
+    total.absorb(t5);
     total.absorb(t2);
     total.absorb(t3);
     total.absorb(t4);
@@ -702,6 +789,10 @@ fn replay(_ctx: &Ctx, case: &Value) -> Vec<Violation> {
             }
         }
         return out;
+    }
+    if let Some(tag) = case["string_case"].as_str() {
+        let mut t = Tally::new();
+        return string_cases(case["thorough"].as_bool().unwrap_or(false)).into_iter().filter(|(t2, _)| t2 == tag).filter_map(|(_, specs)| judge_strings(&specs, &mut t)).map(|(sig, summary)| Violation { sig, summary, case: case.clone() }).collect();
     }
     let c: Case = match serde_json::from_value(case.clone()) {
         Ok(c) => c,
